@@ -206,6 +206,24 @@ def oracle_zero_null(ctx, LR, content, text, case, res=None):
     return oracle(ctx, LR, content, text, case, (got, (res if res is not None else impl_parse(LR, text))[1]))
 
 
+def oracle_typed(ctx, LR, text, want, case):
+    """Typed header fields: the reader must return exactly the typed value written — `type(v) is int and v == written`
+    for integers of any size, the nearest double (float.hex) for floats, bool for yes/no (the canonical structures carry a
+    type tag per field and Python ints are compared exactly)."""
+    ctx.count('oracle_cases')
+    got = impl_parse(LR, text)[0]
+    if got != want:
+        ctx.fail(case, 'typed header field not returned as written: ' + _diff(got, want))
+        return False
+    for _t, ms in want['sections']:
+        for m in ms:
+            if m[0] == 'L':
+                for f in (m[3], m[4]):
+                    if f[0] == 'i' and abs(f[1]) > 2 ** 53: ctx.count('typed_int_beyond_2_53')
+                    ctx.count('typed_field_' + f[0])
+    return True
+
+
 def oracle_numeric_mnemonic(ctx, LR, content, text, case):
     """Mnemonics/units that look like a number or yes/no (repaired class: they are names and come back as the text
     written): everything must be as written, any difference is an unlisted failure."""
@@ -287,6 +305,7 @@ def _case(content, layout):
 def run(ctx):
     import numpy as np
     from gen import las as G
+    typed_texts = []
     LR = _impl()
     rng = ctx.rng
     n_contents = ctx.n(1000, 6000)
@@ -421,6 +440,37 @@ def run(ctx):
         l = G.gen_layout(rng, c)
         oracle_numeric_mnemonic(ctx, LR, c, G.print_las(c, l), {'op': 'content_numeric', 'content': c, 'layout': l})
 
+    # ---- every typed field (value AND description) with integers of every magnitude, signs, leading zeros, floats, yes/no:
+    #      written through placeholders, the expected result is the exact typed value (type tag and exact int / float.hex)
+    for _ in range(ctx.n(400, 3000)):
+        c = G.gen_content(rng, max_curves=3, max_frames=3)
+        hs = [h for s_ in c['sects'] if s_['kind'] == 'H' for h in s_['lines'] if h['mnem'] != 'NULL'] + c['v'][2:]
+        if not hs:
+            continue
+        subst = {}
+        for n_, h in enumerate(rng.sample(hs, min(len(hs), rng.randint(1, 4)))):
+            for fld in rng.choice([('value',), ('desc',), ('value', 'desc')]):
+                key = f'@{fld[0]}{n_}@'
+                subst[key] = G.gen_typed_literal(rng)
+                if fld == 'value': h['value'] = ['t', key]
+                else: h['desc'] = key
+        l = G.gen_layout(rng, c)
+        text = G.print_las(c, l)
+        for key, (t, _) in subst.items():
+            text = text.replace(key, t)
+        want = G.expected(c, G.NULL_DEFAULT if G.declared_null(c) is None else G.declared_null(c))
+        for _t, ms in want['sections']:
+            for m in ms:
+                if m[0] == 'L':
+                    for i_ in (3, 4):
+                        if m[i_][0] == 't' and m[i_][1] in subst:
+                            m[i_] = subst[m[i_][1]][1]
+        oracle_typed(ctx, LR, text, want, {'op': 'typed_fields', 'text': text, 'want': want})
+        typed_texts.append(text)
+    reps = ctx.lean(['parse ' + t.encode('ascii').hex() for t in typed_texts])
+    for t, r in zip(typed_texts, reps):
+        ctx.corr('lasparse_typed_fields', {'op': 'text', 'text': t}, impl_parse(LR, t)[0], model_struct(r))
+
     # ---- malformed stream (correspondence only)
     bad_texts = structural(rng, G)
     valid = [texts[i] for i in ok]
@@ -508,6 +558,12 @@ def replay(ctx, rec):
         if len(ctx.failures) > n0:
             return False, ctx.failures[-1]['detail']
         return True, 'the reader returns the written content'
+    if case.get('op') == 'typed_fields':
+        n0 = len(ctx.failures)
+        oracle_typed(ctx, LR, case['text'], case['want'], case)
+        if len(ctx.failures) > n0:
+            return False, ctx.failures[-1]['detail']
+        return True, 'every typed field is returned as written'
     if case.get('op') == 'content_text':
         n0 = len(ctx.failures)
         oracle(ctx, LR, case['content'], case['text'], case)
